@@ -156,9 +156,12 @@ func Add(api ClientApi) http.HandlerFunc {
 				http.Error(w, err.Error(), http.StatusInternalServerError)
 				return
 			}
+			// the redirect status and its Location must be sent before the body (the
+			// topology the client reads), or the answer goes out as a 200
 			w.Header().Set("Content-Type", "application/json")
+			w.Header().Set("Location", fmt.Sprintf("%s://%s%s", scheme, shards.Shards[shards.LeaderId].HTTPAddr, r.URL.RequestURI()))
+			w.WriteHeader(http.StatusMovedPermanently)
 			_, _ = w.Write(out)
-			http.Redirect(w, r, shards.Shards[shards.LeaderId].HTTPAddr, http.StatusMovedPermanently)
 			return
 		default:
 			http.Error(w, err.Error(), http.StatusPreconditionFailed)
@@ -243,9 +246,12 @@ func AddBulk(api ClientApi) http.HandlerFunc {
 				http.Error(w, err.Error(), http.StatusInternalServerError)
 				return
 			}
+			// the redirect status and its Location must be sent before the body (the
+			// topology the client reads), or the answer goes out as a 200
 			w.Header().Set("Content-Type", "application/json")
+			w.Header().Set("Location", fmt.Sprintf("%s://%s%s", scheme, shards.Shards[shards.LeaderId].HTTPAddr, r.URL.RequestURI()))
+			w.WriteHeader(http.StatusMovedPermanently)
 			_, _ = w.Write(out)
-			http.Redirect(w, r, shards.Shards[shards.LeaderId].HTTPAddr, http.StatusMovedPermanently)
 			return
 		default:
 			http.Error(w, err.Error(), http.StatusPreconditionFailed)
